@@ -17,7 +17,7 @@ def c1(ctx):
 
 def c3(ctx):
     timing.single_source(ctx)
-    timing.beatvalues_codec(ctx)
+    timing.timingdata_fields(ctx)
 
 
 def c5(ctx):
